@@ -14,6 +14,7 @@ def run(tier, seed):
     vfsrun.bfs(out, "copy-a-ab", ["--links", "0", "--alpha", "copy", "--names", "a,ab"] + ([] if thorough else ["--maxstates", "250"]), groups_per_chunk=20)
     n, ln = (300, 200) if thorough else (24, 100)
     vfsrun.hist(out, "rand", "rand", ["--n", str(n), "--len", str(ln), "--seed", str(seed + 17)], recs_per_chunk=19 if thorough else 2)
+    vfsrun.builder_programs(out, tier, seed)        # every Copier setter sequence (last setter wins) on a tree with sub-directories and modes
     out.assumptions += ["copy with follow(true) is not judged by the reference (DESIGN A24: placement of followed entries is a recorded open question); Stdfs copy/move are compared in C02"]
     out.finish(dict(rule="all reachable trees of names {a,b} x depth 2 (<= 1 link) x all 49 ordered pairs of paths x copy, move_p and copy_b with chmod_all/dirs/files; "
                          "before/after snapshots judged by TLC (exact destination subtree, source untouched, nothing outside changes, failed move changes nothing)"))
